@@ -13,6 +13,12 @@ CHECKS = {
  "C08": dict(technique="TLA+ model (RVLinks save/load reader reconstruction) checked by TLC; real save/load at every sampled reachable model state validated by the trace spec; histories with interleaved save/load",
              text="The reader's two reconstruction passes are specified in TLA+ and the round-trip post-conditions are invariants over all reachable states of the bounded model for four SLnK variants; real projects put into the model's reachable states are saved, rewritten per variant and loaded, and TLC judges the loaded tables (Consistent, equal up to trailing freed slots).",
              ref="5/C08, 4 (RVLinks)"),
+ "C14": dict(technique="TLA+ model (RVProject) checked exhaustively by TLC; graph replay of explored transitions into real Project/Module/Pattern/Note objects; batch trace validation of random histories",
+             text="TLC explores attach/new_module/attach(None)/attach_pattern/+=/save-load/note.mod on two projects with free modules and patterns, checking Coherent (index = position, parent, output at 0, single ownership) and that attaching moves no other module; explored transitions are executed on real objects put into the pre state (outcome, post state and return value compared), and random API histories are validated by the trace spec.",
+             ref="5/C14, 4 (RVProject)"),
+ "C13": dict(level="translation_validation", technique="TLA+ registry spec (Trace_RVRegistry over RVSpecData) evaluated by TLC on the import-time class registry; YAML read by an independent walker",
+             text="Every class in rv.modules.MODULE_CLASSES is a Register event whose projected metadata TLC compares clause by clause with the specification data extracted from the YAML (group, flags, controller order/numbering/kind/bounds/members/defaults/unit tables, options byte/bit/size/number/default/inversion/exclusivity/bounds, options chunk number); the final state must register exactly the specified types. The comparison is complete over all 43 types, 502 controllers and 49 options.",
+             ref="5/C13, 4 (RVRegistry)"),
 }
 PENDING = {}
 props = [json.loads(l) for l in open(os.path.join(HERE, "properties.jsonl"))]
